@@ -60,7 +60,8 @@ def project_cases(tier, rng):
     bound = 60 if tier == "quick" else 400
     shapes = [sh for d in range(1, 5) for sh in itertools.product(range(1, 6), repeat=d) if elements(sh) <= bound]
     for sh in shapes:
-        data = [rng.randrange(0, 200) for _ in range(elements(sh))]
+        pz = rng.choice([0.0, 0.0, 0.6])
+        data = [0 if rng.random() < pz else rng.randrange(0, 200) for _ in range(elements(sh))]
         targets = list(itertools.product(*[range(0, n + 2) for n in sh]))
         if len(targets) > (30 if tier == "quick" else 200):
             targets = rng.sample(targets, 30 if tier == "quick" else 200) + [tuple(sh), tuple(1 for _ in sh)]
